@@ -623,6 +623,12 @@ func (x *Exec) nextInstr(st *State, fr *Frame, i *ssa.Next, set func(Value)) {
 	set(VTuple{[]Value{VScalar{okT}, kv, val}})
 }
 
+// freshName: a new name for a symbolic value of any sort (nothing is declared under it yet).
+func (x *Exec) freshName(prefix string) string {
+	x.callCounter++
+	return fmt.Sprintf("%s!n%d", prefix, x.callCounter)
+}
+
 // --------------------------------------------------------------------------
 // type assertions
 
@@ -848,7 +854,7 @@ func (x *Exec) selectInstr(st *State, fr *Frame, i *ssa.Select, set func(Value))
 		dead := false
 		for j, s := range i.States {
 			if s.Dir == types.RecvOnly {
-				vals = append(vals, x.symbolic(target, s.Chan.Type().Underlying().(*types.Chan).Elem(), x.sym.Fresh("select.recv", SBool).S))
+				vals = append(vals, x.symbolic(target, s.Chan.Type().Underlying().(*types.Chan).Elem(), x.freshName("select.recv")))
 			}
 			if j == k && s.Dir == types.SendOnly {
 				cv, ok := x.force(target, x.eval(target, tf, s.Chan)).(VChan)
